@@ -34,6 +34,9 @@ EXTRA_STATIC = [
     'struct { unsigned long a : 50; unsigned long b : 14; } es55 = { 0x3ffffffffffff, 0x3fff };', 'struct { char c; int bf : 5; } es56 = { 1, -16 };', 'struct { int : 3; int v : 4; } es57 = { 7 };',
     'unsigned short es58[3] = u"abc";', 'unsigned es61[2] = U"xy";', "__typeof__(L'a') es62[1] = L\"z\";", 'struct { unsigned short tag[4]; int after; } es63 = { u"abcd", 7 };', 'char es64[2][3] = { "abc", "de" };',
     'int es59 = { 5 };', 'char *es60 = { "q" };',
+    # pointers to distinct literals of equal length that share their first bytes (the literal pool must not merge them)
+    'unsigned *es90[] = { U"abc", U"axy", U"abz", U"abc" };', 'unsigned short *es91[] = { u"ab", u"ac", u"a", u"ab" }; char *es92[] = { "a", "ab", "a\\0b" }; unsigned short *es93 = u"a"; int *es94 = (int *)L"a";',
+    'struct { unsigned *w; char *c; } es95[] = { { U"a", "a" }, { U"b", "a\\0\\0\\0" } };',
     # designators that pass through anonymous members, followed by positional initialisers
     'struct { int a; struct { int b, c; }; int d; int e; } es81 = { .b = 1, 2, 3 };', 'struct { int a; struct { int b, c; }; int d; int e; } es82 = { 5, .c = 1, 3 };',
     'struct { int a; union { int b; char c; }; int d; } es83 = { .c = 1, 2 };', 'struct { struct { struct { int x, y; }; int z; }; int w; } es84 = { .y = 1, 2, 3 };',
